@@ -1,5 +1,5 @@
 """Property -> rule composition.  Each function decides the statically decidable clauses of one property."""
-from .rules import kdefects, numeric, seed, typestate, ownership, clifford, circuit, stabilizer, adjoint, manifold, gellmann, twins, backend, masks, axes, pauli, convexroof, boundary, measure, relabel
+from .rules import kdefects, numeric, seed, typestate, ownership, clifford, circuit, stabilizer, adjoint, manifold, gellmann, twins, backend, masks, axes, pauli, convexroof, boundary, measure, relabel, angles
 
 M = 'numqi.'
 DECISION_C05 = ['numqi.entangle.ppt.is_ppt', 'numqi.entangle.ppt.is_generalized_ppt',
@@ -166,9 +166,11 @@ def c15(proj, rep, tier):
     nf, ns = masks.ms1(proj, rep, {k: v for k, v in MS1_FUNCS.items() if '_lie' in k})
     rep.floor('MS1 elementwise operations / masked stores in the Euler-angle extraction', ns, 30)
     n = twins.tw(proj, rep, ['numqi.group._lie'])
-    rep.assume('angle recovery at the gimbal points (arccos loses the sign of alpha+gamma at beta=0 and of alpha-gamma at beta=pi), '
-               'the SU(2)->SO(3) homomorphism, Wigner-d and Clebsch-Gordan relations are value-level: not decided. Only the clause '
-               '"a batch is converted element-wise whatever mixture of generic and degenerate rotations it contains" is decided.')
+    n = angles.ag1(proj, rep)
+    rep.floor('AG1/F3 inverse-trigonometric sites of the angle extraction', n, 6)
+    rep.assume('numerical accuracy of the recovered angles, the SU(2)->SO(3) homomorphism, Wigner-d and Clebsch-Gordan relations are '
+               'value-level: not decided. Decided: batches are converted element-wise (MS1); full-circle angles are never recovered from '
+               'one arccos alone (AG1); arccos arguments that reach 1+ulp at degenerate rotations are clipped (F3).')
 
 
 def c16(proj, rep, tier):
